@@ -231,6 +231,7 @@ def run(ctx):
            note='negative control: the algorithm as found at the pinned commit is order dependent (three siblings)')
     for F in FAMILIES:
         core.run_family(ctx, F())
+    core.run_concurrent(ctx, StrictRandom(), list(StrictRandom().inputs(ctx))[:60] + list(DeepFork().inputs(ctx))[:20], secs=3 if ctx.tier == 'quick' else 15, name='concurrent-callers')
     ctx.assumptions += ['distances/thresholds are abstracted to ranks (rank r = r/16 exactly in float32 and float64)',
                         'the warning is recognised by its text ("inconsistent taxa") and the named taxa by Taxon.short_repr()',
                         'when no common ancestor exists the statement does not constrain the warning; it is not judged then']
